@@ -815,6 +815,13 @@ pub struct PaymentControlsInfo {
 impl UserHeader {
     /// Parse user header from block 3 string using structured parsing
     pub fn parse(block3: &str) -> Result<Self> {
+        if !block3.is_ascii() {
+            return Err(ParseError::InvalidBlockStructure {
+                block: "3".to_string(),
+                message: "Block 3 must contain only ASCII characters".to_string(),
+            });
+        }
+
         let mut user_header = UserHeader::default();
 
         // Parse nested tags in format {tag:value}
@@ -1179,6 +1186,13 @@ pub struct SystemOriginatedMessage {
 impl Trailer {
     /// Parse trailer from block 5 string using structured parsing
     pub fn parse(block5: &str) -> Result<Self> {
+        if !block5.is_ascii() {
+            return Err(ParseError::InvalidBlockStructure {
+                block: "5".to_string(),
+                message: "Block 5 must contain only ASCII characters".to_string(),
+            });
+        }
+
         let mut trailer = Trailer::default();
 
         // Extract common tags if present
